@@ -1,0 +1,52 @@
+//! Verification hooks (compiled only with `--cfg eyeball_verif`).
+//!
+//! A process-global pause hook is called at a few named points inside the
+//! lock protocol, so that a test director can force a particular thread
+//! interleaving. Without the cfg flag none of this exists.
+
+use std::sync::{Arc, RwLock};
+
+/// A point in the library's lock protocol at which the pause hook is called.
+#[derive(Clone, Copy, Debug, PartialEq, Eq, Hash)]
+pub enum PausePoint {
+    /// `ObservableState::poll_update`: before taking the metadata lock.
+    PollBeforeMeta,
+    /// `ObservableState::poll_update`: holding the metadata lock, before the
+    /// version check.
+    PollHoldingMeta,
+    /// `ObservableState::poll_update`: after the check (and the waker
+    /// registration, if any), still holding the metadata lock.
+    PollAfterCheck,
+    /// `ObservableState::close`: before taking the metadata lock.
+    CloseBeforeMeta,
+    /// `ObservableState::close`: holding the metadata lock, before the
+    /// version is reset.
+    CloseHoldingMeta,
+    /// `ObservableState::set` / `update*`: the value has been written, the
+    /// version not yet incremented (holding the outer write lock).
+    WriteBeforeNotify,
+    /// `ObservableState::incr_version_and_wake`: done.
+    WriteAfterNotify,
+    /// `SharedObservable::drop`: the "am I the last clone?" decision has been
+    /// made (and acted upon); the handle's references are not yet released.
+    DropAfterDecision,
+    /// `WeakObservable::upgrade`: the state has been upgraded, the clone
+    /// counter not yet.
+    UpgradeBetween,
+}
+
+type Hook = Arc<dyn Fn(PausePoint) + Send + Sync>;
+
+static HOOK: RwLock<Option<Hook>> = RwLock::new(None);
+
+/// Install (or remove) the process-global pause hook.
+pub fn set_pause_hook(hook: Option<Hook>) {
+    *HOOK.write().unwrap() = hook;
+}
+
+pub(crate) fn pause(point: PausePoint) {
+    let hook = HOOK.read().unwrap().clone();
+    if let Some(hook) = hook {
+        hook(point);
+    }
+}
